@@ -139,7 +139,7 @@ HDR_ODD = [b'nocolon', b': novalue-name', b'X-C : spaced-name', b'X-D:\tv\t', b'
            b'Content-Length : 4', b'Transfer-Encoding: chunked ', b'x\xaa: y']
 
 
-def gen_message(r):
+def gen_message(r, force=None):
     """One response (plus possibly surplus) as bytes with everything the reference needs.
     'wf' messages follow RFC 7230's grammar; for them 'expect' is what an RFC 7230
     recipient must return (status, decoded payload, length of the message)."""
@@ -147,6 +147,8 @@ def gen_message(r):
     eol = b'\r\n' if (wf or r.random() < .7) else b'\n'
     params = {'head': r.random() < .08, 'http10': r.random() < .08, 'keep_alive': r.random() >= .07,
               'ignore_length': (not wf) and r.random() < .05}
+    if force:
+        params.update(force)           # (C04: connection-level parameters are fixed per case)
     framing = r.choice(['length'] * 5 + ['chunked'] * 5 + ['close'] * 2 + ['nobody'] * 2 + ['both'])
     status = r.choice([200] * 6 + [404, 301, 206, 500, 201, 203])
     if framing == 'nobody':
@@ -296,6 +298,34 @@ def gen_message(r):
     return m
 
 
+def big_messages(r):
+    """boundaries of wpull's / asyncio's size caps: header block of exactly 32768 / 32769 bytes, chunk-size and trailer
+    lines whose LF sits at index 65536 / 65537 (StreamReader limit 2**16)"""
+    out = []
+    P = {'head': False, 'http10': False, 'keep_alive': True, 'ignore_length': False}
+
+    def mk(data, tag, wf_expect=None):
+        out.append({'bytes': data, 'params': dict(P), 'wf': wf_expect is not None, 'expect': wf_expect, 'tags': ['big', tag],
+                    'head_len': 0, 'msg_len': len(data), 'framing': 'big', 'big': True})
+    for total in (32768, 32769):
+        fixed = b'HTTP/1.1 200 OK\r\nContent-Length: 3\r\nX-Pad: \r\n'
+        pad = total - len(fixed)
+        head = b'HTTP/1.1 200 OK\r\nContent-Length: 3\r\nX-Pad: ' + b'p' * pad + b'\r\n\r\n'
+        data = head + b'abc'
+        mk(data, 'header-%d' % total, {'status': 200, 'body': b'abc'.hex(), 'delim': 'length', 'len': len(data)} if total == 32768 else None)
+    head = b'HTTP/1.1 200 OK\r\nTransfer-Encoding: chunked\r\n\r\n'
+    for lf_index in (65536, 65537):
+        line = b'3;' + b'e' * (lf_index - 3) + b'\r\n'
+        assert line.index(b'\n') == lf_index
+        data = head + line + b'abc\r\n0\r\n\r\n'
+        mk(data, 'chunk-line-lf-%d' % lf_index,
+           {'status': 200, 'body': b'abc'.hex(), 'delim': 'chunked', 'len': len(data)} if lf_index == 65536 else None)
+    line = b'X-T: ' + b't' * (65537 - 6) + b'\r\n'
+    assert line.index(b'\n') == 65537
+    mk(head + b'3\r\nabc\r\n0\r\n' + line + b'\r\n', 'trailer-line-lf-65537')
+    return out
+
+
 def truncations(r, m, k):
     """cut a well-formed message short inside its payload (length / chunked): must be an error"""
     out = []
@@ -437,7 +467,7 @@ def coq_run(m, ex, total=None):
         tbl.append('(%d, %d)' % (total - before, size))
     t = ex.get('tables')
     tabs = ' '.join(_coq_tab(t[k]) for k in ('W31', 'W15', 'WRaw')) if t else 'E E E'
-    return 'mrun %s [%s] %s (unhex "%s")' % (tabs, '; '.join(tbl), coq_params(m['params']), data.hex())
+    return 'mrun %s [%s] %s %s' % (tabs, '; '.join(tbl), coq_params(m['params']), coq_bytes(data))
 
 
 def _h2(cp6):
@@ -455,6 +485,23 @@ def _lit(hx6):
     return 'unhex6 "%s"' % hx6 if h is None else 'unhex "%s"' % h
 
 
+_RUN = __import__('re').compile(rb'(.)\1{199,}', __import__('re').S)
+
+
+def coq_bytes(b):
+    """Coq term for a byte string; long runs of one byte are written as [repeat] (string literals dominate coqc time)"""
+    pieces = []
+    pos = 0
+    for mo in _RUN.finditer(b):
+        if mo.start() > pos:
+            pieces.append('unhex "%s"' % b[pos:mo.start()].hex())
+        pieces.append('repeat %d (N.to_nat %d)' % (b[mo.start()], mo.end() - mo.start()))
+        pos = mo.end()
+    if pos < len(b) or not pieces:
+        pieces.append('unhex "%s"' % b[pos:].hex())
+    return '(' + ' ++ '.join(pieces) + ')'
+
+
 def _sub(data, hx):
     """a byte string that is a slice of the message is written as that slice (keeps the
     generated Coq small: string literals dominate coqc time); exact equality is still what is compared"""
@@ -462,8 +509,8 @@ def _sub(data, hx):
     if len(b) >= 12:
         i = data.find(b)
         if i >= 0:
-            return '(firstn %d (skipn %d (unhex "%s")))' % (len(b), i, data.hex())
-    return '(unhex "%s")' % hx
+            return '(firstn (N.to_nat %d) (skipn (N.to_nat %d) %s))' % (len(b), i, coq_bytes(data))
+    return coq_bytes(b)
 
 
 def coq_expected(m, ex):
@@ -499,8 +546,24 @@ def intern_literals(texts):
 def model_check(items, per=160):
     """items: list of (run_text, expected_text); returns list of failing indices and coq errors"""
     bodies = []
-    for i in range(0, len(items), per):
-        defs, checks = intern_literals(['check (%s) %s' % (rt, xt) for rt, xt in items[i:i + per]])
+    groups = []                      # lists of item indices; items with a huge literal share a file only with their own message
+    cur = []
+    for i, (rt, xt) in enumerate(items):
+        if len(rt) > 40000 or 'repeat' in rt:
+            if groups and groups[-1] and (len(items[groups[-1][0]][0]) > 40000 or 'repeat' in items[groups[-1][0]][0]) and items[groups[-1][0]][0][-200:] == rt[-200:]:
+                groups[-1].append(i)
+            else:
+                groups.append([i])
+            continue
+        cur.append(i)
+        if len(cur) == per:
+            groups.append(cur)
+            cur = []
+    if cur:
+        groups.append(cur)
+    groups.sort(key=lambda g: -sum(len(items[i][0]) for i in g))
+    for g in groups:
+        defs, checks = intern_literals(['check (%s) %s' % items[i] for i in g])
         bodies.append(HEADER + defs + 'Definition checks : list bool := [\n  ' + ';\n  '.join(checks) +
                       '].\nEval vm_compute in (failing checks).\n')
     outs = common.coq_eval_many(bodies, par=6)
@@ -510,7 +573,7 @@ def model_check(items, per=160):
         if fails is None:
             errors.append({'shard': bi, 'coq_error': out[-800:]})
             continue
-        failing += [bi * per + int(f) for f in fails]
+        failing += [groups[bi][int(f)] for f in fails]
     return failing, errors
 
 
@@ -601,11 +664,13 @@ def latin1_items(lat):
 
 
 def int_samples(r, n):
-    out = []
+    # the digit-count limit of int(): a few huge literals only (string literals dominate coqc time)
+    out = [[10, (b'1' * 4300).hex()], [10, (b'1' * 4301).hex()], [10, (b'-' + b'0' * 4300).hex()], [10, (b'0' * 4301).hex()],
+           [16, (b'f' * 4400).hex()], [16, (b'1' * 4301).hex()]]
     alphabet = b'0123456789abcdefABCDEFxX_+- \t\r\ng\x00\xa0\x85'
     for _ in range(n):
         base = r.choice([10, 16])
-        t = r.randrange(4)
+        t = r.randrange(3)
         if t == 0:
             s = bytes(r.choice(alphabet) for _ in range(r.randrange(0, 7)))
         elif t == 1:
@@ -616,8 +681,6 @@ def int_samples(r, n):
             if len(s) > 1 and r.random() < .5:
                 i = r.randrange(1, len(s))
                 s = s[:i] + r.choice([b'_', b'__', b' ']) + s[i:]
-        else:
-            s = r.choice([b'1' * 4300, b'1' * 4301, b'-' + b'0' * 4300, b'0' * 4301, b'f' * 5000])
         out.append([base, s.hex()])
     return out
 
@@ -628,8 +691,14 @@ def build(ctx, r, n_msgs, n_segs, n_trunc):
         m = gen_message(r)
         msgs.append(m)
         msgs += truncations(r, m, n_trunc)
+    msgs += big_messages(r)
     pairs = []
     for mi, m in enumerate(msgs):
+        if m.get('big'):
+            n = len(m['bytes'])
+            for cuts in ([], list(range(29999, n, 29999)) + [n - 2]):
+                pairs.append((mi, cuts))
+            continue
         for cuts in segmentations(r, m['bytes'], n_segs):
             pairs.append((mi, cuts))
     return msgs, pairs
@@ -637,7 +706,7 @@ def build(ctx, r, n_msgs, n_segs, n_trunc):
 
 def correspondence(ctx):
     r = common.rng('c08')
-    n_msgs = 420 if not ctx.thorough else 30000
+    n_msgs = 600 if not ctx.thorough else 30000
     msgs, pairs = build(ctx, r, n_msgs, 4, 1)
     ints = int_samples(r, 300)
     results, first = run_impl([impl_case(msgs[mi], cuts) for mi, cuts in pairs], extra={'latin1': True, 'ints': ints})
